@@ -5,6 +5,7 @@ package main
 import (
 	"fmt"
 	"math/big"
+	"os"
 	"sort"
 	"strings"
 )
@@ -337,7 +338,177 @@ func Forall(vars []*Term, body *Term) *Term {
 	if IsTrue(body) {
 		return TTrue
 	}
-	return &Term{Op: "forall", Bound: vars, Args: []*Term{body}, Sort: SBool}
+	return &Term{Op: "forall", Bound: vars, Args: []*Term{body}, Sort: SBool, Pats: InferPatterns(vars, body)}
+}
+
+// ---- trigger inference ---------------------------------------------------------------------------
+// Quantified facts are instantiated by E-matching on "guard" terms: array reads (select) and
+// uninterpreted applications mentioning the bound variables, taken from the antecedent of an
+// implication when there is one (else from the whole body). This keeps instantiation goal-directed.
+
+var NoPatterns = os.Getenv("GOVC_NOPAT") != ""
+
+func termSize(t *Term) int {
+	n := 1
+	for _, a := range t.Args {
+		n += termSize(a)
+	}
+	return n
+}
+
+func mentions(t *Term, names map[string]bool, found map[string]bool) {
+	if t.IsLeaf() {
+		if names[t.Op] {
+			found[t.Op] = true
+		}
+		return
+	}
+	for _, a := range t.Args {
+		mentions(a, names, found)
+	}
+}
+
+func hasBadOp(t *Term) bool {
+	switch t.Op {
+	case "ite", "and", "or", "not", "=>", "=", "forall", "exists", "<", "<=", ">", ">=", "bvslt", "bvsle", "bvsgt", "bvsge", "bvult", "bvule", "bvugt", "bvuge", "distinct":
+		return true
+	}
+	if len(t.Bound) > 0 {
+		return true
+	}
+	for _, a := range t.Args {
+		if hasBadOp(a) {
+			return true
+		}
+	}
+	return false
+}
+
+func isTriggerHead(t *Term) bool {
+	if len(t.Args) == 0 {
+		return false
+	}
+	switch t.Op {
+	case "select", "set.member", "set.subset":
+		return true
+	}
+	// uninterpreted function applications (names with a dot or "uf"/"spec" prefixes)
+	if strings.HasPrefix(t.Op, "uf.") || strings.HasPrefix(t.Op, "ufi.") || strings.HasPrefix(t.Op, "spec.") || t.Op == "strcat" || t.Op == "strlen" || t.Op == "typeof" || strings.HasPrefix(t.Op, "unbox.") || strings.HasPrefix(t.Op, "implements.") {
+		return true
+	}
+	return false
+}
+
+func InferPatterns(vars []*Term, body *Term) [][]*Term {
+	if NoPatterns || len(vars) == 0 {
+		return nil
+	}
+	names := map[string]bool{}
+	for _, v := range vars {
+		names[v.Op] = true
+	}
+	type cand struct {
+		t    *Term
+		vars map[string]bool
+		size int
+		key  string
+	}
+	collect := func(root *Term) []*cand {
+		var out []*cand
+		seen := map[string]bool{}
+		var walk func(t *Term)
+		walk = func(t *Term) {
+			if len(t.Bound) > 0 {
+				return // do not look into nested quantifiers
+			}
+			if isTriggerHead(t) && !hasBadOp(t) {
+				f := map[string]bool{}
+				mentions(t, names, f)
+				if len(f) > 0 {
+					k := t.String()
+					if !seen[k] {
+						seen[k] = true
+						out = append(out, &cand{t, f, termSize(t), k})
+					}
+				}
+			}
+			for _, a := range t.Args {
+				walk(a)
+			}
+		}
+		walk(root)
+		sort.SliceStable(out, func(i, j int) bool { return out[i].size < out[j].size })
+		return out
+	}
+	var cands []*cand
+	if body.Op == "=>" && len(body.Args) == 2 {
+		cands = collect(body.Args[0])
+		covered := map[string]bool{}
+		for _, c := range cands {
+			for v := range c.vars {
+				covered[v] = true
+			}
+		}
+		if len(covered) < len(names) {
+			cands = append(cands, collect(body.Args[1])...)
+		}
+	} else {
+		cands = collect(body)
+	}
+	if len(cands) == 0 {
+		return nil
+	}
+	// drop candidates that strictly contain a smaller candidate with the same variable set (prefer the small guards)
+	var pats [][]*Term
+	// single terms covering all variables
+	for _, c := range cands {
+		if len(c.vars) == len(names) {
+			dominated := false
+			for _, p := range pats {
+				if strings.Contains(c.key, p[0].String()) {
+					dominated = true
+				}
+			}
+			if !dominated {
+				pats = append(pats, []*Term{c.t})
+			}
+			if len(pats) >= 4 {
+				break
+			}
+		}
+	}
+	if len(pats) > 0 {
+		return pats
+	}
+	// greedy multi-pattern
+	need := map[string]bool{}
+	for n := range names {
+		need[n] = true
+	}
+	var multi []*Term
+	for len(need) > 0 {
+		var best *cand
+		bestGain := 0
+		for _, c := range cands {
+			g := 0
+			for v := range c.vars {
+				if need[v] {
+					g++
+				}
+			}
+			if g > bestGain || (g == bestGain && g > 0 && best != nil && c.size < best.size) {
+				best, bestGain = c, g
+			}
+		}
+		if best == nil || bestGain == 0 {
+			return nil
+		}
+		multi = append(multi, best.t)
+		for v := range best.vars {
+			delete(need, v)
+		}
+	}
+	return [][]*Term{multi}
 }
 
 func Exists(vars []*Term, body *Term) *Term {
